@@ -10,7 +10,8 @@ U = project.uncps
 PLANS = {
     # tier -> [(profile, MaxOps)]
     # (profile, MaxOps) exhaustive; (profile, MaxOps, n) = n simulated behaviours (random deep filters)
-    "quick": [("logic", 2), ("arith", 1), ("strings", 1), ("misc", 1), ("math", 1), ("temporal", 1), ("long", 0), ("logic", 7, 1200), ("arith", 5, 150), ("strings", 4, 150)],
+    "quick": [("logic", 1), ("arith", 1), ("strings", 1), ("misc", 1), ("math", 1), ("temporal", 1), ("long", 0), ("logic", 7, 1500), ("logic", 3, 600),
+              ("arith", 5, 150), ("strings", 4, 150)],
     # measured sizes (sqlite): logic 3 = 412 k filters, arith 2 = 110 k, strings 2 = 114 k, math 2 = 95 k; misc 2 and temporal 2
     # exceed 1.4 M and are sampled by simulation instead
     "thorough": [("logic", 3), ("arith", 2), ("strings", 2), ("misc", 1), ("math", 2), ("temporal", 1), ("long", 1),
